@@ -282,6 +282,13 @@ func c14(ctx *Ctx) (*Outcome, error) {
 	for i := 0; i < 12; i++ {
 		cases = append(cases, caseDefCompositionCase(i))
 	}
+	for i := 0; i < ctx.N(96, 240); i++ {
+		cases = append(cases, siblingCollisionSetCase(i))
+	}
+	for i := 0; i < 3*nearTwinVariants; i++ {
+		// distinct schemas, distinct types: two contenders for one type name that differ in a single keyword
+		cases = append(cases, nearTwinCase(i))
+	}
 	// pinned witness of the recorded finding name-breaks-tag
 	for _, hn := range hazard {
 		root := &sg.Schema{Types: []string{"object"}, Props: []sg.Prop{{Name: hn, S: &sg.Schema{Types: []string{"string"}}}, {Name: "plain", S: &sg.Schema{Types: []string{"integer"}}}}}
